@@ -138,8 +138,7 @@ theorem ackBlock_rtx (s : Tcb) (seg : Hdr) : ∃ s' r, ackBlock s seg = .ok (s',
         split <;> split <;> exact ⟨_, _, rfl, hs1.trans (rtxLe_of_eq rfl)⟩
     · dsimp only
       split <;> exact ⟨_, _, rfl, rtxLe_of_eq rfl⟩
-    · simp only [enqueueThen_eq]
-      exact ⟨_, _, rfl, (rtxLe_enqueueBuilt _ _).trans (rtxLe_of_eq rfl)⟩
+    · exact ⟨_, _, rfl, RtxLe.refl _⟩
 
 theorem synBlock_rtx (s : Tcb) (seg : Hdr) : ∃ s' r, synBlock s seg = .ok (s', r) ∧ RtxLe s s' := by
   unfold synBlock
